@@ -185,7 +185,7 @@ def strat_real(draw, tier):
 
 
 PARTS = [
-    Part("multi_tan", exec_case, strategy=strat, examples={"quick": 96, "thorough": 4000}, shards={"quick": 16, "thorough": 16},
+    Part("multi_tan", exec_case, strategy=strat, examples={"quick": 192, "thorough": 4000}, shards={"quick": 16, "thorough": 16},
          budget_s={"quick": 80, "thorough": 1500}, engine="serial for k=1, A for k>=2", describe="generated mosaics and decompositions"),
     Part("multi_tan_realmp", exec_real, strategy=strat_real, examples={"quick": 24, "thorough": 300}, shards={"quick": 8, "thorough": 16},
          budget_s={"quick": 70, "thorough": 1200}, shrink=False, engine="R (real multiprocessing, real file locks)", describe="the same on real multiprocessing with 2-4 workers"),
